@@ -662,3 +662,665 @@ META = {
             'Trusted: sa/symx.py linear normal forms; Token.end/MatchResult.end read from the class properties.',
     'technique': 'symbolic offset algebra with exhaustive per-branch case analysis of the scanner loop',
 }
+
+
+# =====================================================================================================================
+# C16.tab - bounded-exhaustive tabulation of the real matcher code (sa/ointerp.py) against an independent reference
+#
+# C16.tab.tokens   every string over a class alphabet (letter, digit, blank, '$', punctuation, Han/kana, Hangul) up to a small
+#                  length is tokenised by interpreting <Tokenizer>.tokenize as written: tokens in order, disjoint,
+#                  text == s[start:start+length], every non-blank character in exactly one token, and equal to the reference
+#                  tokenisation (SimpleTokenizer: letters/digits group, everything else stands alone; NumberWithUnitTokenizer:
+#                  '$' is a token character, a token splits between letter|digit and between digit|'$' - read from the code).
+# C16.tab.find     StringMatcher is built and queried by interpreting __init__/init/find (and everything below: TrieTree, Node,
+#                  MatchResult, Token, the tokenizer) on every query of a few tokens, for dictionaries of 1-3 phrases per shape
+#                  class: the result must be EXACTLY the token-aligned occurrences (start, length, text = query slice, ids) of
+#                  the inserted phrases - all of them, overlapping ones and prefixes included - and must not depend on earlier
+#                  calls or on another matcher built in the same interpreter (shared defaults / class-level state are modelled).
+
+from ..ointerp import Interp as _Interp, Obj as _Obj, FuncRef as _FuncRef, PyExc as _PyExc, ClassRef as _ClassRef, Gen as _Gen
+import itertools as _it
+
+_TAB_TOK = 'C16.tab.tokens'
+_TAB_FIND = 'C16.tab.find'
+_MATCHER_FILES = ['simple_tokenizer', 'number_with_unit_tokenizer', 'trie_tree', 'node', 'string_matcher', 'match_result', 'token',
+                  'abstract_matcher', 'match_strategy']
+
+# class alphabet: two realisations of (letter, digit, blank, '$', punctuation, Han/kana, Hangul)
+_ALPHA0 = ['a', '7', ' ', '$', '.', '中']
+_ALPHA1 = ['é', '0', '\t', '$', '-', 'ア', '한']
+_ALPHA_SMALL = ['a', '7', ' ', '$']
+
+
+def _cls_of(c):
+    """character class of a test character - known by construction, not computed with the repository's tables"""
+    if c in ' \t':
+        return 'B'
+    if c in '0123456789':
+        return 'D'
+    if c == '$':
+        return '$'
+    if c in '.-':
+        return 'P'
+    if c in '中ア':
+        return 'C'
+    if c == '한':
+        return 'K'
+    if c == 'é' or ('a' <= c <= 'z') or ('A' <= c <= 'Z'):
+        return 'L'
+    raise AnalysisError('internal: test character %r has no class' % c)
+
+
+def _ref_tokens(s, kind):
+    """reference tokenisation [(start, length, text)] written from the property statement.
+    simple: maximal runs of letters/digits; every other non-blank character (symbols, '$', CJK incl. Hangul) alone.
+    nwu   : token characters are letters, digits and '$'; a run splits between letter|digit and digit|'$' (either order);
+            symbols and Han/kana alone.  Hangul under nwu is not decided by the property (see _ambiguous)."""
+    out = []
+    i, n = 0, len(s)
+    grp = 'LD' if kind == 'simple' else 'LD$'
+    while i < n:
+        k = _cls_of(s[i])
+        if k == 'B':
+            i += 1
+            continue
+        j = i + 1
+        if k in grp:
+            while j < n and _cls_of(s[j]) in grp:
+                if kind == 'nwu':
+                    pair = {_cls_of(s[j - 1]), _cls_of(s[j])}
+                    if pair == {'L', 'D'} or pair == {'D', '$'}:
+                        break
+                j += 1
+        out.append((i, j - i, s[i:j]))
+        i = j
+    return out
+
+
+def _ambiguous(s, kind):
+    """NumberWithUnitTokenizer consults is_chinese/is_japanese only: Hangul syllables take the letter branch (they group),
+    whereas SimpleTokenizer isolates them.  The statement does not say which is right, so for such strings only the
+    structural clauses are decided."""
+    return kind == 'nwu' and '한' in s
+
+
+def _tok_struct(s, toks):
+    """structural clauses of the statement on [(start, length, text)]; None or a short reason"""
+    pos = 0
+    cover = [0] * len(s)
+    for (a, l, t) in toks:
+        if not isinstance(a, int) or not isinstance(l, int) or isinstance(a, bool) or not isinstance(t, str):
+            return 'a token is not (int start, int length, str text)'
+        if l < 1 or a < 0 or a + l > len(s):
+            return 'token (%d, %d) lies outside the input or is empty' % (a, l)
+        if a < pos:
+            return 'token (%d, %d) is out of order or overlaps its predecessor' % (a, l)
+        if t != s[a:a + l]:
+            return 'token (%d, %d) has text %r, the slice is %r' % (a, l, t, s[a:a + l])
+        for k in range(a, a + l):
+            cover[k] += 1
+        pos = a + l
+    for k, ch in enumerate(s):
+        if _cls_of(ch) != 'B' and cover[k] != 1:
+            return 'character %d (%r) is covered by %d tokens' % (k, ch, cover[k])
+    return None
+
+
+def _strings(alpha, maxlen):
+    for n in range(0, maxlen + 1):
+        for tup in _it.product(alpha, repeat=n):
+            yield ''.join(tup)
+
+
+def _read(it, o, names, what):
+    if not isinstance(o, _Obj):
+        raise _PyExc('%s is %r, not an object' % (what, o))
+    return tuple(it.getattr(o, n, None, None) for n in names)
+
+
+def _tab_tokenize(idx, call, kind, plans, per_call=300000):
+    """call(it, s) -> interpreted token list.  Returns (n strings, None | (string, got, reason))"""
+    it = _Interp(idx, where='C16.tab.tokens[%s]' % kind, budget=per_call)
+    call = call(it)
+    n = 0
+    seen = set()
+    for alpha, maxlen in plans:
+        for s in _strings(alpha, maxlen):
+            if s in seen:
+                continue
+            seen.add(s)
+            n += 1
+            it.budget = per_call
+            try:
+                res = call(s)
+                if isinstance(res, _Gen):
+                    res = it.iterate(res, None)
+                if not isinstance(res, list):
+                    raise _PyExc('tokenize returned %r' % (res,))
+                toks = [_read(it, o, ('start', 'length', 'text'), 'a token') for o in res]
+            except _PyExc as ex:
+                return n, (s, None, 'raises %s' % ex)
+            why = _tok_struct(s, toks)
+            if why is None and not _ambiguous(s, kind):
+                want = _ref_tokens(s, kind)
+                if toks != want:
+                    why = 'tokens differ from the reference tokenisation %s' % (want,)
+            if why is not None:
+                return n, (s, toks, why)
+    return n, None
+
+
+_CTL_TOKENIZE = ast.parse('''
+def tokenize(self, input):
+    tokens = []
+    in_token = False
+    token_start = 0
+    for i in range(0, len(input)):
+        c = input[i]
+        if str.isspace(c):
+            if in_token:
+                tokens.append(Token(token_start, i - token_start, input[token_start:i]))
+                in_token = False
+        elif not (str.isdigit(c) or str.isalpha(c)) or self.is_cjk(c):
+            if in_token:
+                tokens.append(Token(token_start, i - token_start, input[token_start:i]))
+                in_token = False
+            tokens.append(Token(i, 1, input[i:i + 1]))
+        else:
+            if not in_token:
+                token_start = i
+                in_token = True
+    return tokens
+''').body[0]          # the epilogue flush is missing: the last token of 'a' is dropped
+
+
+def _tokenizer_call(idx, qual, fn_override=None):
+    c = idx.cls(qual)
+    k, fn = idx.find_method(c, 'tokenize')
+    if fn is None:
+        raise AnalysisError('anchor vanished: %s.tokenize' % qual)
+    if fn_override is not None:
+        k, fn = c, fn_override
+
+    def make(it):
+        obj = it.instantiate(c, [], {}, None)
+        ref = _FuncRef(k.mod, fn, k)
+        return lambda s: it.call_function(ref, [s], {}, None, selfobj=obj)
+    return c, k, fn, make
+
+
+def _tab_tokens(chk, idx, tier):
+    chk.rule(_TAB_TOK, 'tokenize interpreted on every short string over the class alphabet: ordered, disjoint, text = slice, '
+                       'every non-blank character covered once, equal to the reference tokenisation', floor=2, control=True)
+    tok = idx.cls('recognizers_text.matcher.token.Token')
+    for p in ('start', 'length', 'text'):
+        if p not in tok.methods:
+            raise AnalysisError('Token has no property %r: the token view cannot be read' % p)
+    if tier == 'quick':
+        plans = [(_ALPHA0, 4), (_ALPHA1, 3)]
+        bounds = 'all strings of length <= 4 over %r and of length <= 3 over %r' % (''.join(_ALPHA0), ''.join(_ALPHA1))
+    else:
+        plans = [(_ALPHA0, 5), (_ALPHA1, 4), (_ALPHA_SMALL, 6)]
+        bounds = 'all strings of length <= 5 over %r, <= 4 over %r and <= 6 over %r' % (
+            ''.join(_ALPHA0), ''.join(_ALPHA1), ''.join(_ALPHA_SMALL))
+    for qual, kind in zip(TOKENIZERS, ('simple', 'nwu')):
+        c, k, fn, make = _tokenizer_call(idx, qual)
+        chk.consulted(k.mod.path)
+        n, fail = _tab_tokenize(idx, make, kind, plans)
+        construct = '%s.tokenize[every short string over the class alphabet]' % c.name
+        if fail is None:
+            chk.ok(_TAB_TOK, k.mod.path, construct,
+                   'ordered, disjoint, text = slice, non-blank characters covered once, equals the reference tokenisation',
+                   fn.lineno)
+        else:
+            s, got, why = fail
+            detail = 'raises' if got is None else ('differs from the reference tokenisation' if why.startswith('tokens differ')
+                                                   else 'structural clause broken')
+            chk.bad(_TAB_TOK, k.mod.path, construct, detail,
+                    '%s.tokenize(%r) -> %s: %s (smallest failing input; %d strings tried)' % (c.name, s, got, why, n), fn.lineno)
+        chk.observe('%s: %s.tokenize interpreted on %d strings (%s)%s' % (
+            _TAB_TOK, c.name, n, bounds,
+            '; strings with a Hangul syllable: structural clauses only (the tokenizer groups Hangul with letters, '
+            'SimpleTokenizer isolates it - the statement does not decide)' if kind == 'nwu' else ''))
+    # positive control: a tokenizer without the epilogue flush
+    c, k, fn, make = _tokenizer_call(idx, TOKENIZERS[0], _CTL_TOKENIZE)
+    n, fail = _tab_tokenize(idx, make, 'simple', [(_ALPHA0, 2)])
+    chk.control(_TAB_TOK, fail is not None and fail[0] == 'a')
+
+
+# ---------------------------------------------------------------------------------------------------------------------
+# C16.tab.find
+
+_WORD = {'a': 'a', 'b': 'bc', 'c': 'd', 'x': 'x'}
+
+
+def _ph(p):
+    return ' '.join(_WORD[ch] for ch in p)
+
+
+def _ref_find(entries, q, kind):
+    """every token-aligned occurrence of every inserted phrase: sorted [(start, length, text, sorted ids)]"""
+    toks = _ref_tokens(q, kind)
+    texts = [t[2] for t in toks]
+    groups = {}
+    for ph, pid in entries:
+        groups.setdefault(tuple(t[2] for t in _ref_tokens(ph, kind)), []).append(pid)
+    out = []
+    for i in range(len(toks)):
+        for P, ids in groups.items():
+            if P and tuple(texts[i:i + len(P)]) == P:
+                a = toks[i][0]
+                e = toks[i + len(P) - 1]
+                ln = e[0] + e[1] - a
+                out.append((a, ln, q[a:a + ln], tuple(sorted(ids))))
+    return sorted(out)
+
+
+class _Matchers:
+    """one interpreter = one process: matchers are built and queried by interpreting the repository's code"""
+
+    def __init__(self, idx, hooks=None, per_call=600000):
+        self.idx = idx
+        self.per_call = per_call
+        self.it = _Interp(idx, hooks=hooks, where='C16.tab.find', budget=per_call)
+        self.sm = idx.cls('recognizers_text.matcher.string_matcher.StringMatcher')
+        self.k_init, self.f_init = idx.find_method(self.sm, 'init')
+        self.k_find, self.f_find = idx.find_method(self.sm, 'find')
+        if self.f_init is None or self.f_find is None:
+            raise AnalysisError('anchor vanished: StringMatcher.init / StringMatcher.find')
+
+    def build(self, form, entries, kind):
+        it = self.it
+        it.budget = self.per_call
+        if kind == 'simple':
+            m = it.instantiate(self.sm, [], {}, None)        # default strategy, default tokenizer
+        else:
+            ms = self.idx.cls('recognizers_text.matcher.match_strategy.MatchStrategy')
+            tk = it.instantiate(self.idx.cls(TOKENIZERS[1]), [], {}, None)
+            m = it.instantiate(self.sm, [it.getattr(_ClassRef(ms), 'TrieTree', None, None), tk], {}, None)
+        if form == 'list':
+            args = [[ph for ph, _ in entries]]
+        elif form == 'ids':
+            args = [[ph for ph, _ in entries], [pid for _, pid in entries]]
+        else:
+            d = {}
+            for ph, pid in entries:
+                d.setdefault(pid, (pid, []))[1].append(ph)
+            args = [d]
+        it.budget = self.per_call
+        it.call_function(_FuncRef(self.k_init.mod, self.f_init, self.k_init), args, {}, None, selfobj=m)
+        return m
+
+    def find_raw(self, m, q):
+        it = self.it
+        it.budget = self.per_call
+        res = it.call_function(_FuncRef(self.k_find.mod, self.f_find, self.k_find), [q], {}, None, selfobj=m)
+        if isinstance(res, _Gen):
+            res = it.iterate(res, None)
+        if not isinstance(res, list):
+            raise _PyExc('find returned %r' % (res,))
+        return res
+
+    def view(self, res):
+        out = []
+        for o in res:
+            a, ln, t, ids = _read(self.it, o, ('start', 'length', 'text', 'canonical_values'), 'a match')
+            if isinstance(ids, _Gen):
+                ids = self.it.iterate(ids, None)
+            if not isinstance(ids, (list, tuple)) or not all(isinstance(x, str) for x in ids):
+                raise _PyExc('canonical_values is %r' % (ids,))
+            out.append((a, ln, t, tuple(sorted(ids))))
+        try:
+            return sorted(out)
+        except TypeError:
+            raise _PyExc('match fields of unexpected types: %r' % (out,))
+
+    def find(self, m, q):
+        return self.view(self.find_raw(m, q))
+
+
+def _diff_kind(got, want):
+    g = {(a, l): (t, i) for a, l, t, i in got}
+    w = {(a, l): (t, i) for a, l, t, i in want}
+    if len(got) != len(g) and set(g) == set(w):
+        return 'occurrence reported twice'
+    if set(w) - set(g):
+        return 'missed occurrence'
+    if set(g) - set(w):
+        return 'spurious match'
+    if any(g[k][0] != w[k][0] for k in w):
+        return 'wrong text'
+    return 'wrong ids'
+
+
+def _entries_of(spec):
+    form, raw = spec
+    out = []
+    for n, e in enumerate(raw):
+        ph, pid = (e, None) if isinstance(e, str) else e
+        text = _ph(ph)
+        out.append((text, text if form == 'list' else (pid or 'I%d' % (n + 1))))
+    return out
+
+
+def _queries(entries, kind, nmax):
+    words = []
+    for ph, _ in entries:
+        for t in _ref_tokens(ph, kind):
+            if t[2] not in words:
+                words.append(t[2])
+    n = nmax.get(len(words), min(nmax.values()))
+    voc = words + ['x']
+    for k in range(0, n + 1):
+        for tup in _it.product(voc, repeat=k):
+            yield ' '.join(tup)
+
+
+def _tab_dictionary(idx, spec, kind, queries, hooks=None):
+    """(calls, None | (query, got, want, kind of difference, call number, answered correctly on a fresh matcher?))"""
+    form, _ = spec
+    entries = _entries_of(spec)
+    mm = _Matchers(idx, hooks)
+    try:
+        m = mm.build(form, entries, kind)
+    except _PyExc as ex:
+        return 0, ('<init>', None, None, 'raises', 0, None, 'init raises %s' % ex)
+    calls = 0
+    first = None
+    for q in queries:
+        want = _ref_find(entries, q, kind)
+        calls += 1
+        try:
+            raw = mm.find_raw(m, q)
+            got = mm.view(raw)
+            err = None
+        except _PyExc as ex:
+            raw, got, err = None, None, 'raises %s' % ex
+        if got != want:
+            fresh = None
+            try:
+                m2 = _Matchers(idx, hooks)
+                fresh = m2.find(m2.build(form, entries, kind), q) == want
+            except _PyExc:
+                fresh = False
+            return calls, (q, got, want, 'raises' if err else _diff_kind(got, want), calls, fresh, err)
+        if first is None and got:
+            first = (q, raw, got)
+    if first is not None:
+        # the objects handed out by an earlier call must not have been changed by the later calls
+        q, raw, got = first
+        try:
+            again = mm.view(raw)
+        except _PyExc as ex:
+            again = 'raises %s' % ex
+        if again != got:
+            return calls, (q, again, got, 'result of an earlier call changed by later calls', calls, True, None)
+        try:
+            rep = mm.find(m, q)
+        except _PyExc as ex:
+            rep = 'raises %s' % ex
+        calls += 1
+        if rep != got:
+            return calls, (q, rep, got, 'repeated call answers differently', calls, True, None)
+    return calls, None
+
+
+def _describe(spec, kind):
+    form, _ = spec
+    ent = _entries_of(spec)
+    tk = 'SimpleTokenizer' if kind == 'simple' else 'NumberWithUnitTokenizer'
+    if form == 'list':
+        return 'StringMatcher(%s).init(%r)' % (tk, [p for p, _ in ent])
+    if form == 'ids':
+        return 'StringMatcher(%s).init(%r, %r)' % (tk, [p for p, _ in ent], [i for _, i in ent])
+    d = {}
+    for p, i in ent:
+        d.setdefault(i, []).append(p)
+    return 'StringMatcher(%s).init(%r)' % (tk, d)
+
+
+def _fail_text(spec, kind, f):
+    q, got, want, dk, callno, fresh, err = f
+    msg = '%s; find(%r) -> %s, expected %s [%s]' % (_describe(spec, kind), q, err or got, want, dk)
+    if fresh is True and callno > 1:
+        msg += ('; call no. %d on this matcher - a fresh matcher in a fresh process answers the same query correctly: the '
+                'result depends on earlier calls (shared mutable state)' % callno)
+    return msg
+
+
+# shape classes: (name, form, quick dictionaries, additional thorough dictionaries); a phrase 'aba' is the word sequence
+# a b a over the vocabulary a='a', b='bc', c='d'; (phrase, id) pairs give explicit ids
+_SHAPES = [
+    ('one phrase', 'list',
+     [['a'], ['aa'], ['ab'], ['aba'], ['abc']],
+     [['aaa'], ['aab'], ['abb']]),
+    ('two phrases, one a prefix of the other', 'ids',
+     [['a', 'ab'], ['ab', 'a'], ['ab', 'aba']],
+     [['aba', 'ab'], ['a', 'aa'], ['aa', 'aaa'], ['a', 'abc'], ['ab', 'abc'], ['abc', 'ab']]),
+    ('two phrases, the end of one is the start of the other', 'ids',
+     [['ab', 'ba']],
+     [['ab', 'bc'], ['ab', 'b'], ['b', 'ab'], ['aba', 'ba'], ['aa', 'ab']]),
+    ('two unrelated phrases', 'ids',
+     [['a', 'b']],
+     [['ab', 'c'], ['a', 'bc'], ['ab', 'ca']]),
+    ('one phrase under two ids', 'ids',
+     [[('ab', 'P'), ('ab', 'Q')], [('a', 'P'), ('a', 'Q')]],
+     [[('aba', 'P'), ('aba', 'Q')], [('a', 'P'), ('ab', 'Q'), ('a', 'R')]]),
+    ('two phrases under one id', 'ids',
+     [[('ab', 'P'), ('b', 'P')]],
+     [[('a', 'P'), ('ab', 'P')], [('a', 'P'), ('b', 'P')], [('ab', 'P'), ('ba', 'P')]]),
+    ('three phrases', 'ids',
+     [['a', 'ab', 'abb'], ['a', 'ab', 'abc']],
+     [['abb', 'ab', 'a'], ['ab', 'ba', 'a'], ['a', 'b', 'ab'], ['ab', 'bc', 'ca'], ['a', 'aa', 'aaa']]),
+    ('dict form of init (id -> phrases)', 'dict',
+     [[('a', 'P'), ('ab', 'P'), ('ab', 'Q')]],
+     [[('a', 'P'), ('a', 'Q'), ('b', 'Q')], [('ab', 'P'), ('abc', 'P'), ('bc', 'Q')]]),
+]
+
+_SHAPE_OK = 'exactly the token-aligned occurrences (start, length, text = query slice, ids), independent of earlier calls'
+
+
+def _irregular_queries(tier):
+    """token sequences over a, bc, '.' glued with irregular gaps; '' only where the neighbours split on their own"""
+    toks = ['a', 'bc', '.']
+    gaps = [' ', ' \t', ''] if tier == 'quick' else [' ', '  ', '\t', '']
+    nmax = 3 if tier == 'quick' else 4
+    out = []
+    for n in range(1, nmax + 1):
+        for seq in _it.product(toks, repeat=n):
+            for gs in _it.product(gaps, repeat=n - 1):
+                if any(g == '' and '.' not in (seq[i], seq[i + 1]) for i, g in enumerate(gs)):
+                    continue
+                q = seq[0] + ''.join(g + t for g, t in zip(gs, seq[1:]))
+                out.append(q)
+                if n <= 2:
+                    out.append(' ' + q + '\t')
+    return out
+
+
+_CTL_TRIE_FIND = ast.parse('''
+def find(self, query_text):
+    for i in range(0, len(query_text)):
+        node = self.root
+        j = i
+        for j in range(j, len(query_text)):
+            if node.end:
+                yield MatchResult(i, j - i, node.values)
+            text = query_text[j]
+            if node[text] is None:
+                break
+            node = node[text]
+''').body[0]          # never looks at the node reached with the last token: an occurrence that ends the query is missed
+
+_CTL_SM_FIND = ast.parse('''
+def find(self, tokenized_query):
+    if isinstance(tokenized_query, list):
+        return self.matcher.find(tokenized_query)
+    query_tokens = self.tokenizer.tokenize(tokenized_query)
+    result = []
+    for r in self.find(list(map(lambda t: t.text, query_tokens))):
+        start_token = query_tokens[r.start]
+        end_token = query_tokens[r.start + r.length - 1]
+        match_result = MatchResult(start_token.start, end_token.end - start_token.start)
+        match_result.text = tokenized_query[start_token.start: end_token.end]
+        match_result.canonical_values.extend(r.canonical_values)
+        result.append(match_result)
+    return result
+''').body[0]          # ids appended to MatchResult's shared default list
+
+
+def _tab_isolation(idx, tier, hooks=None):
+    """two matchers with different tokenizers and overlapping phrase lists, built one after the other in ONE interpreter and
+    queried alternately; (calls, None | message)"""
+    lists = {'simple': ['a1', 'us$', 'kg', '1 kg'], 'nwu': ['a1', 'us$', 'kg', '1 kg', '7']}
+    items = ['a1', 'us$', 'kg', '1']
+    qs = list(items)
+    for x, y in _it.product(items, repeat=2):
+        qs += [x + ' ' + y, x + y]
+    if tier != 'quick':
+        for x, y, z in _it.product(items, repeat=3):
+            qs += [x + ' ' + y + z, x + y + ' ' + z]
+    calls = 0
+    names = {'simple': 'SimpleTokenizer', 'nwu': 'NumberWithUnitTokenizer'}
+    for order in (('simple', 'nwu'), ('nwu', 'simple')):
+        mm = _Matchers(idx, hooks)
+        ent = {k: [(p, p) for p in lists[k]] for k in order}
+        try:
+            ms = {k: mm.build('list', ent[k], k) for k in order}
+        except _PyExc as ex:
+            return calls, 'building the matchers raises %s' % ex
+        for q in qs:
+            for k in (order[0], order[1], order[0]):
+                want = _ref_find(ent[k], q, k)
+                calls += 1
+                try:
+                    got = mm.find(ms[k], q)
+                except _PyExc as ex:
+                    got = 'raises %s' % ex
+                if got != want:
+                    alone = None
+                    try:
+                        m2 = _Matchers(idx, hooks)
+                        alone = m2.find(m2.build('list', ent[k], k), q) == want
+                    except _PyExc:
+                        alone = False
+                    return calls, (
+                        'matchers built in the order %s in one process: StringMatcher(%s).init(%r).find(%r) -> %s, expected %s'
+                        % (' then '.join('StringMatcher(%s).init(%r)' % (names[o], lists[o]) for o in order), names[k], lists[k],
+                           q, got, want)
+                        + ('; the same matcher alone in a fresh process answers correctly: state leaks between matchers or calls'
+                           if alone else ''))
+    return calls, None
+
+
+def rule_matcher_tab(chk, idx):
+    tier = chk.tier if hasattr(chk, 'tier') else 'quick'
+    for name in _MATCHER_FILES:
+        chk.consulted(idx.mod('recognizers_text.matcher.' + name).path)
+    _tab_tokens(chk, idx, tier)
+    chk.rule(_TAB_FIND, 'StringMatcher built and queried by interpreting the code: find returns exactly the token-aligned '
+                        'occurrences of the inserted phrases with offsets, text and ids, independent of earlier calls and of '
+                        'other matchers', floor=8, control=True)
+    sm = idx.cls('recognizers_text.matcher.string_matcher.StringMatcher')
+    line = sm.methods['find'].lineno if 'find' in sm.methods else None
+    nmax = {1: 5, 2: 4, 3: 3} if tier == 'quick' else {1: 6, 2: 5, 3: 4}
+    total = 0
+    for name, form, quick, extra in _SHAPES:
+        construct = 'StringMatcher[%s]' % name
+        dicts = quick + (extra if tier != 'quick' else [])
+        fail = None
+        n_calls = 0
+        for raw in dicts:
+            spec = (form, raw)
+            calls, f = _tab_dictionary(idx, spec, 'simple', _queries(_entries_of(spec), 'simple', nmax))
+            n_calls += calls
+            if f is not None:
+                fail = (spec, f)
+                break
+        total += n_calls
+        if fail is None:
+            chk.ok(_TAB_FIND, sm.mod.path, construct, _SHAPE_OK, line)
+        else:
+            chk.bad(_TAB_FIND, sm.mod.path, construct, fail[1][3],
+                    _fail_text(fail[0], 'simple', fail[1]) + ' (first failing input; %d calls compared)' % n_calls, line)
+    # irregular spacing and symbols that tokenise on their own
+    ent = [('a', 'I1'), ('a bc', 'I2'), ('bc.', 'I3'), ('a  .\ta', 'I4')]
+    construct = 'StringMatcher[irregular spacing and symbols]'
+    calls, f = _tab_raw(idx, ent, 'simple', _irregular_queries(tier))
+    total += calls
+    if f is None:
+        chk.ok(_TAB_FIND, sm.mod.path, construct, _SHAPE_OK, line)
+    else:
+        q, got, want, dk, callno, fresh, err = f
+        chk.bad(_TAB_FIND, sm.mod.path, construct, dk,
+                'StringMatcher(SimpleTokenizer).init(%r, %r); find(%r) -> %s, expected %s [%s]%s (first failing input; %d calls '
+                'compared)' % ([p for p, _ in ent], [i for _, i in ent], q, err or got, want, dk,
+                               '; a fresh matcher answers correctly: the result depends on earlier calls'
+                               if fresh and callno > 1 else '', calls), line)
+    # two matchers, two tokenizers, one process
+    construct = 'StringMatcher[two matchers with different tokenizers in one process]'
+    calls, msg = _tab_isolation(idx, tier)
+    total += calls
+    if msg is None:
+        chk.ok(_TAB_FIND, sm.mod.path, construct, 'each matcher answers as if it were alone', line)
+    else:
+        chk.bad(_TAB_FIND, sm.mod.path, construct, 'answers depend on the other matcher or on earlier calls',
+                msg + ' (first failing input; %d calls compared)' % calls, line)
+    chk.observe('%s: %d interpreted find() calls; per dictionary every query over its own words plus the filler word "x", joined '
+                'by single blanks, of up to %s tokens for dictionaries over 1/2/3 distinct words; %d dictionaries in %d shape '
+                'classes; irregular pass: %d queries with double blank / blank+tab / no gap next to "." ; isolation: two build '
+                'orders, alternating queries' % (
+                    _TAB_FIND, total, '/'.join(str(nmax[k]) for k in (1, 2, 3)),
+                    sum(len(s[2]) + (len(s[3]) if tier != 'quick' else 0) for s in _SHAPES), len(_SHAPES),
+                    len(_irregular_queries(tier))))
+    chk.observe('%s: StringMatcher cannot be used with MatchStrategy.AcAutomaton on this tree (AaNode.__init__ never initialises '
+                'Node\'s fields: init raises AttributeError; no caller selects it) - only the TrieTree strategy is tabulated'
+                % _TAB_FIND)
+    # positive controls: (1) a trie walk that never inspects the node reached with the last token, (2) ids appended to the
+    # shared default list of MatchResult - the same comparison must report both
+    tt = idx.cls('recognizers_text.matcher.trie_tree.TrieTree')
+
+    def hook_for(owner, fn):
+        fn.name = 'find_control'        # not itself hooked
+        ref = _FuncRef(owner.mod, fn, owner)
+        return lambda it, args, kwargs: it.call_function(ref, args[1:], kwargs, None, selfobj=args[0])
+    spec = ('ids', ['a', 'ab'])
+    c1 = _tab_dictionary(idx, spec, 'simple', _queries(_entries_of(spec), 'simple', {2: 3}),
+                         hooks={'TrieTree.find': hook_for(tt, _CTL_TRIE_FIND)})[1]
+    c2 = _tab_dictionary(idx, spec, 'simple', _queries(_entries_of(spec), 'simple', {2: 3}),
+                         hooks={'StringMatcher.find': hook_for(sm, _CTL_SM_FIND)})[1]
+    chk.control(_TAB_FIND, c1 is not None and c1[3] == 'missed occurrence' and c1[0] == 'a'
+                and c2 is not None and c2[3] == 'wrong ids')
+
+
+def _tab_raw(idx, entries, kind, queries, hooks=None):
+    """as _tab_dictionary for literal (phrase text, id) entries"""
+    mm = _Matchers(idx, hooks)
+    try:
+        m = mm.build('ids', entries, kind)
+    except _PyExc as ex:
+        return 0, ('<init>', None, None, 'raises', 0, None, 'init raises %s' % ex)
+    calls = 0
+    for q in queries:
+        want = _ref_find(entries, q, kind)
+        calls += 1
+        try:
+            got, err = mm.find(m, q), None
+        except _PyExc as ex:
+            got, err = None, 'raises %s' % ex
+        if got != want:
+            try:
+                m2 = _Matchers(idx, hooks)
+                fresh = m2.find(m2.build('ids', entries, kind), q) == want
+            except _PyExc:
+                fresh = False
+            return calls, (q, got, want, 'raises' if err else _diff_kind(got, want), calls, fresh, err)
+    return calls, None
+
+
+_run_before_tab = run
+
+
+def run(chk):
+    _run_before_tab(chk)
+    rule_matcher_tab(chk, get_index())
